@@ -50,7 +50,7 @@ def sketchLine (s : Sketch) (op : String) : Sketch × String × Bool :=
     match h.toNat? with
     | some h =>
       match s.increment false h.toUInt64 with
-      | .ok s' => (s', "ok", false)
+      | .ok s' => (s', s!"ok size={s'.size}", false)
       | .error f => (s, s!"panic {f.toString}", true)
     | none => (s, "bad-op", false)
   | ["skt.freq", h] =>
